@@ -28,7 +28,8 @@ ASSUMPTIONS = [
   'virtual-time gevent loop preserves gevent callback FIFO order (selftest)',
   'underlying connections are mocks: Open() hands out one pending result per opening that the environment '
   'completes; a connection reports Idle until its open completes, Open/Busy afterwards, Closed once it failed, '
-  'died or was closed; an open completed on a dead connection completes as a failure',
+  'died or was closed; an open completed on a dead connection completes as a failure; a connection holds the '
+  'requests it receives until the environment answers them (reply, or error once the connection is dead)',
   'surplus closes / close-on-last-holder are asserted for RefCountedSink only (as in the statement); '
   'SingletonPoolSink is held to: at most one live connection, shared by all requests, replaced after failure',
   '"holder alive" for the sharing key = the holder still references the sink it got from CreateSink '
@@ -36,7 +37,9 @@ ASSUMPTIONS = [
   'TLC exhaustive only within the stated constants',
 ]
 RULE = {'C16': 'singleton: every history over {Open, Close, Request, open-completes, open-fails, connection-dies} up '
-               'to the tier length with a quiescent point after each call, plus seeded random longer histories '
+               'to the tier length with a quiescent point after each call, every history that puts a request in flight '
+               'and continues with requests / failure / late answer of the held request / open-completes / close '
+               '(mock connections hold requests until the driver answers them), plus seeded random longer histories '
                'with calls landing between loop quanta; refcounted: every Open/Close word up to the tier length, '
                'random words with underlying failures; provider: every word over get(h,key)/open/close/drop for '
                '2 holders x 2 keys up to the tier length plus random words for 3 holders; non-trivial = at least '
@@ -51,6 +54,10 @@ def models(prop, tier):
               'completions and failures with the loop quanta (yield at Open().wait() in _Get)'),
     dict(module='RefCounted', cfg='RefCounted_q.cfg', coverage=True, workers=4,
          what='RefCountedSink + SharedSinkProvider: 3 holders, 2 keys, all get/open/close/drop histories up to 7 calls'),
+    dict(module='SingletonPool', cfg='SingletonPool_eager.cfg', expect_violation='NoViolation', workers=2,
+         what='documented variant (EagerRelease): _Release drops the current sink when the response came back on a '
+              'closed one; TLC counterexample to C16.single (request in flight, failure, replacement, late error '
+              'response, next request opens a second live connection)'),
     dict(module='SingletonPool', cfg='SingletonPool_lost.cfg', expect_violation='NoLostRequest', workers=2,
          what='growth, outside C16: TLC witness that a request is lost (its _Get returns None) when Close() lands '
               'while the request waits for the open'),
@@ -77,6 +84,15 @@ def _preload():
 
 # ------------------------------------------------------------------ case generation
 S_ALPHA = ['O', 'C', 'R', 'K', 'F', 'D']
+# histories around "a request is in flight on a connection that fails": prefix puts R1 in flight on S1,
+# then every word over requests / die / answer-oldest-held / open-completes / close that contains a
+# failure and a (late) answer
+F_PREFIXES = [['R', 'K'], ['O', 'K', 'R']]
+F_ALPHA = ['R', 'D', 'A', 'K', 'C']
+
+
+def _f_ok(w):
+  return 'D' in w and 'A' in w
 
 
 def _words(alpha, maxlen, ok=None):
@@ -126,11 +142,14 @@ def cases(prop, tier, seed):
   # --- singleton pool
   for w in _words(S_ALPHA, 4 if quick else 6, _s_ok):
     out.append({'kind': 'singleton', 'ops': _with_q(w)})
+  for pre in F_PREFIXES:
+    for w in _words(F_ALPHA, 4 if quick else 6, _f_ok):
+      out.append({'kind': 'singleton', 'ops': _with_q(pre + w)})
   for _ in range(900 if quick else 15000):
-    n = rng.randint(4, 9)
+    n = rng.randint(4, 10)
     w = []
     for _ in range(n):
-      w.append(rng.choice(['O', 'O', 'C', 'C', 'R', 'R', 'R', 'K', 'K', 'F', 'D', 'D', 'B']))
+      w.append(rng.choice(['O', 'O', 'C', 'C', 'R', 'R', 'R', 'R', 'K', 'K', 'K', 'F', 'D', 'D', 'B', 'A', 'A', 'L']))
     if not _s_ok(w):
       w.insert(0, rng.choice(['O', 'R']))
     out.append({'kind': 'singleton', 'ops': _rand_sched(rng, w)})
@@ -172,6 +191,9 @@ class _World(object):
     self.gevent = gevent
     self.ev = []
     self.conns = []
+    self.held = []        # requests in flight below the component: (rid, connection, sink_stack)
+    self.seen = set()
+    self.Return = MethodReturnMessage
     self.CS = ChannelState
     self.SP = SinkProperties
     self.Stack = ClientMessageSinkStack
@@ -208,7 +230,11 @@ class _World(object):
         self._cur = None
 
       def AsyncProcessRequest(self, sink_stack, msg, stream, headers):
-        world.ev.append({'e': 'Seen', 'c': self.cid, 'r': int(getattr(msg, 'rid', 0))})
+        # the request stays in flight on this connection until the driver answers it
+        rid = int(getattr(msg, 'rid', 0))
+        world.ev.append({'e': 'Seen', 'c': self.cid, 'r': rid})
+        world.seen.add(rid)
+        world.held.append((rid, self, sink_stack))
 
       def AsyncProcessResponse(self, sink_stack, context, stream, msg):
         pass
@@ -255,7 +281,8 @@ class _World(object):
         pass
 
       def AsyncProcessResponse(self, sink_stack, context, stream, msg):
-        if isinstance(msg, MethodReturnMessage) and msg.error is not None:
+        # Failed = the pool itself answered a request that never reached a connection
+        if isinstance(msg, MethodReturnMessage) and msg.error is not None and self.rid not in world.seen:
           world.ev.append({'e': 'Failed', 'r': self.rid})
 
     self.Conn = Conn
@@ -284,6 +311,12 @@ class _World(object):
         return False
       c.die()
       return True
+    if op in ('A', 'L'):
+      # the response of a held request travels back up its sink stack: a reply, or an error when
+      # the connection it was in flight on is dead (that error may arrive long after the failure)
+      if not self.held:
+        return False
+      return self.answer(self.held[0][0] if op == 'A' else self.held[-1][0])
     if op == 'B':
       live = [x for x in self.conns if not x.dead and x._state in (self.CS.Open, self.CS.Busy)]
       if not live:
@@ -292,6 +325,21 @@ class _World(object):
       x._state = self.CS.Busy if x._state == self.CS.Open else self.CS.Open
       return True
     raise ValueError(op)
+
+  def answer(self, rid):
+    for j, (r, c, stack) in enumerate(self.held):
+      if r == rid:
+        break
+    else:
+      return False
+    del self.held[j]
+    err = bool(c.dead)
+    self.ev.append({'e': 'Resp', 'r': r, 'c': c.cid, 'ok': not err})
+    if err:
+      stack.AsyncProcessResponseMessage(self.Return(error=Exception('connection reset')))
+    else:
+      stack.AsyncProcessResponseMessage(self.Return(return_value=r))
+    return True
 
   def quiesce(self):
     self.loop.run_until_idle()
@@ -535,6 +583,8 @@ def _replay_one(script):
         w.env('K' if params[1] else 'F', w.conns[params[0] - 1])
       elif name == 'Die':
         w.env('D', w.conns[params[0] - 1])
+      elif name == 'Respond':
+        w.answer(params[0])
       elif name == 'RunTask':
         loop.step_callback()
       else:
